@@ -44,7 +44,8 @@ type simTimer struct {
 	period int64
 	ch     chan time.Time
 	fn     func()
-	hb     uint32 // creator releases, clockG acquires: creation happens-before firing
+	handle *time.Timer // AfterFunc: the value handed to the caller
+	hb     uint32      // creator releases, clockG acquires: creation happens-before firing
 }
 
 var (
@@ -316,42 +317,32 @@ func TimeNewTimer(d time.Duration) *time.Timer {
 	return &time.Timer{C: tm.ch}
 }
 
-// simFuncTimers remembers AfterFunc timers by the *time.Timer handed out.
-var simFuncTimers [64]struct {
-	h  *time.Timer
-	tm *simTimer
-}
-
 // TimeAfterFunc replaces time.AfterFunc.
 func TimeAfterFunc(d time.Duration, f func()) *time.Timer {
 	if FreeDaemons || cur() == nil {
 		return time.AfterFunc(d, f)
 	}
 	tm := newTimer(d, 0, f)
-	hbRelease(&tm.hb)
 	h := &time.Timer{}
-	rememberFunc(h, tm)
+	setHandle(tm, h)
+	hbRelease(&tm.hb)
 	return h
 }
 
 //go:norace
-func rememberFunc(h *time.Timer, tm *simTimer) {
-	for i := range simFuncTimers {
-		if simFuncTimers[i].h == nil || !simFuncTimers[i].tm.alive {
-			simFuncTimers[i].h, simFuncTimers[i].tm = h, tm
-			return
-		}
-	}
-}
+func setHandle(tm *simTimer, h *time.Timer) { tm.handle = h }
 
+// lookupTimer finds the simulated timer behind a *time.Timer: by its channel, or — for AfterFunc timers,
+// which have none — by the handle (also after it fired or was stopped, as long as the slot was not reused).
+//
 //go:norace
 func lookupTimer(c <-chan time.Time, h *time.Timer) *simTimer {
 	if c != nil {
 		return findTimer(c)
 	}
-	for i := range simFuncTimers {
-		if simFuncTimers[i].h == h {
-			return simFuncTimers[i].tm
+	for i := range timers {
+		if timers[i].handle == h {
+			return &timers[i]
 		}
 	}
 	return nil
